@@ -70,16 +70,24 @@ fn run(desc: &J, out: &mut Out) {
             return;
         }
     };
-    let mut ns = Vec::new();
-    nodes(desc, &v, &mut ns);
-    let view = enc_value(v.clone().into_value());
-    let back_from = enc_doc(&J::from(v.clone().into_value()));
-    let deser = match deserr::deserialize::<J, J, CapErr>(v.clone()) {
-        Ok(d) => json!({"ok": true, "doc": enc_doc(&d), "nerr": 0}),
-        Err(CapErr(j)) => json!({"ok": false, "doc": rec("null"), "nerr": 1, "err": j}),
-    };
-    out.emit(&json!({"e": "reset", "inp": {"doc": desc}, "text": text, "parsed": true, "held": enc_doc(&v), "nodes": ns,
-                     "view": view, "back_from": back_from, "deser": deser}));
+    let obs = crate::util::quiet_catch(|| {
+        let mut ns = Vec::new();
+        nodes(desc, &v, &mut ns);
+        let view = enc_value(v.clone().into_value());
+        let back_from = enc_doc(&J::from(v.clone().into_value()));
+        let deser = match deserr::deserialize::<J, J, CapErr>(v.clone()) {
+            Ok(d) => json!({"ok": true, "doc": enc_doc(&d), "nerr": 0}),
+            Err(CapErr(j)) => json!({"ok": false, "doc": rec("null"), "nerr": 1, "err": j}),
+        };
+        (ns, view, back_from, deser)
+    });
+    match obs {
+        Ok((ns, view, back_from, deser)) => out.emit(&json!({"e": "reset", "inp": {"doc": desc}, "text": text, "parsed": true, "held": enc_doc(&v), "nodes": ns,
+                     "view": view, "back_from": back_from, "deser": deser})),
+        // a panic of the bridge: logged as a failed deserialization, which the specification never allows
+        Err(m) => out.emit(&json!({"e": "reset", "inp": {"doc": desc}, "text": text, "parsed": true, "held": enc_doc(&v), "nodes": [],
+                     "view": rec("null"), "back_from": rec("null"), "deser": {"ok": false, "doc": rec("null"), "nerr": 0, "err": m}})),
+    }
 }
 
 fn lit(neg: bool, digits: &str, fe: bool, txt: &str) -> J {
